@@ -373,11 +373,16 @@ fn strip_sgr(raw: &[u8], allow_truncated_tail: bool) -> Result<(Vec<u8>, Vec<u32
                 if j < raw.len() && (0x40..=0x7e).contains(&raw[j]) {
                     if raw[j] == b'm' {
                         let params = &raw[ps..pe];
-                        let reset = params.is_empty() || params.split(|&c| c == b';').all(|p| p.iter().all(|&d| d == b'0'));
+                        // codes that switch attributes OFF: 0 (all), 21-29, 39 (default
+                        // foreground), 49 (default background), 54, 55, 59
+                        let off = |p: &[u8]| -> bool {
+                            let v: u32 = std::str::from_utf8(p).ok().and_then(|s| if s.is_empty() { Some(0) } else { s.parse().ok() }).unwrap_or(u32::MAX);
+                            v == 0 || (21..=29).contains(&v) || v == 39 || v == 49 || v == 54 || v == 55 || v == 59
+                        };
+                        let reset = params.split(|&c| c == b';' || c == b':').all(off);
                         if reset {
                             cur = 0;
                         } else {
-                            // "0;31" or a reset followed by a colour both end up as that colour
                             let id = match styles.iter().position(|s| s == params) {
                                 Some(p) => p,
                                 None => {
@@ -390,6 +395,31 @@ fn strip_sgr(raw: &[u8], allow_truncated_tail: bool) -> Result<(Vec<u8>, Vec<u32
                     }
                     j += 1;
                     ok = true;
+                }
+            }
+            if !ok && i + 1 < raw.len() && raw[i + 1] == b']' {
+                // OSC: up to BEL or ST
+                let mut k = i + 2;
+                while k < raw.len() && raw[k] != 0x07 && !(raw[k] == 0x1b && k + 1 < raw.len() && raw[k + 1] == b'\\') {
+                    k += 1;
+                }
+                if k < raw.len() {
+                    j = if raw[k] == 0x07 { k + 1 } else { k + 2 };
+                    ok = true;
+                } else {
+                    j = raw.len();
+                }
+            } else if !ok && i + 1 < raw.len() && raw[i + 1] != b'[' {
+                // two- or three-byte sequences such as ESC ( B (character set) or ESC =
+                let mut k = i + 1;
+                while k < raw.len() && (0x20..=0x2f).contains(&raw[k]) {
+                    k += 1;
+                }
+                if k < raw.len() && (0x30..=0x7e).contains(&raw[k]) {
+                    j = k + 1;
+                    ok = true;
+                } else {
+                    j = raw.len().min(k + 1);
                 }
             }
             if !ok {
@@ -487,11 +517,9 @@ pub struct RunResult {
 fn judge_full(sc: &Scenario, r: &RunResult, strip_cr: bool, c: &mut Counters) -> Result<(), Violation> {
     let (lines, _, _) = expected_lines(sc, strip_cr);
     let may_color = matches!(sc.color, Color::Always | Color::Auto);
-    let has_esc = r.stdout.contains(&0x1b);
+    // with colouring off the output is compared byte for byte (the input itself may contain ESC)
+    let has_esc = may_color && r.stdout.contains(&0x1b);
     let (plain, hl) = if has_esc {
-        if !may_color {
-            return Err(Violation { class: "wrong-lines".into(), detail: "escape sequences in the output although colouring is off".into() });
-        }
         match strip_sgr(&r.stdout, false) {
             Ok((p, h, _)) => (p, Some(h)),
             Err(e) => return Err(Violation { class: "garbled-escape".into(), detail: e }),
@@ -542,9 +570,14 @@ fn judge_full(sc: &Scenario, r: &RunResult, strip_cr: bool, c: &mut Counters) ->
 /// text unchanged; no panic. `read_fault_file`: index of the input whose read failed.
 fn judge_hard(sc: &Scenario, r: &RunResult, write_fault: bool, read_fault_file: Option<usize>, pattern_file_fault: bool, strip_cr: bool) -> Result<(), Violation> {
     let (lines, _, _) = expected_lines(sc, strip_cr);
-    let (plain, hl, _) = match strip_sgr(&r.stdout, true) {
-        Ok(x) => x,
-        Err(e) => return Err(Violation { class: "garbled-escape".into(), detail: e }),
+    let may_color = matches!(sc.color, Color::Always | Color::Auto);
+    let (plain, hl, _) = if may_color {
+        match strip_sgr(&r.stdout, true) {
+            Ok(x) => x,
+            Err(e) => return Err(Violation { class: "garbled-escape".into(), detail: e }),
+        }
+    } else {
+        (r.stdout.clone(), vec![0; r.stdout.len()], vec![])
     };
     if pattern_file_fault {
         if !plain.is_empty() {
@@ -552,7 +585,7 @@ fn judge_hard(sc: &Scenario, r: &RunResult, write_fault: bool, read_fault_file: 
         }
         return Ok(());
     }
-    let colored = r.stdout.contains(&0x1b);
+    let colored = may_color && r.stdout.contains(&0x1b);
     for st in styles(sc) {
         // candidate line sequences: all files complete, except `read_fault_file` which may stop
         // after any number of its lines, after which either nothing or all later files follow
@@ -571,6 +604,12 @@ fn judge_hard(sc: &Scenario, r: &RunResult, write_fault: bool, read_fault_file: 
                         a.extend_from_slice(&after);
                         cands.push(a);
                     }
+                }
+                // a tool that reads everything before it prints anything, or buffers its output
+                // and gives up on the error, legitimately prints less: any line-prefix of what
+                // precedes the failing input
+                for n in 0..before.len() {
+                    cands.push(before[..n].to_vec());
                 }
             }
         }
@@ -832,7 +871,7 @@ pub fn run(sc: &Scenario, bins: &Bins, dir: &Path, known_crlf: bool) -> Outcome 
     let mut write_fault = false;
     let mut out_off = 0usize;
     let mut inside_line_fault = false;
-    let (_, _, spans) = strip_sgr(&r.stdout, true).unwrap_or_default();
+    let (_, _, spans) = if matches!(sc.color, Color::Always | Color::Auto) { strip_sgr(&r.stdout, true).unwrap_or_default() } else { Default::default() };
     // walk the raw log again so that opens and calls interleave correctly
     let mut read_reqs = vec![];
     let mut write_reqs = vec![];
@@ -876,7 +915,13 @@ pub fn run(sc: &Scenario, bins: &Bins, dir: &Path, known_crlf: bool) -> Outcome 
             }
         } else {
             read_reqs.push(call.req);
-            let name = if call.fd == 0 { "stdin.txt".to_string() } else { fd_file.get(&call.fd).cloned().unwrap_or_default() };
+            let name = if call.fd == 0 {
+                "stdin.txt".to_string()
+            } else {
+                // the tool may open "./a.txt" or an absolute path for the argument "a.txt"
+                let p = fd_file.get(&call.fd).cloned().unwrap_or_default();
+                p.rsplit('/').next().unwrap_or("").to_string()
+            };
             let content: Vec<u8> = if name == "stdin.txt" {
                 file_bytes(&sc.stdin_lines)
             } else if name == "pats.txt" {
@@ -934,7 +979,7 @@ pub fn run(sc: &Scenario, bins: &Bins, dir: &Path, known_crlf: bool) -> Outcome 
     if sc.files.len() >= 2 && sc.flag_h {
         c.p_two_files_no_filename += 1;
     }
-    if sc.files.iter().any(|f| f.1.len() > 65_536) {
+    if sc.files.iter().any(|f| f.1.len() > 65_536) || sc.stdin_lines.len() > 65_536 {
         c.p_tall_input += 1;
     }
     if sc.files.len() > 256 {
@@ -950,7 +995,7 @@ pub fn run(sc: &Scenario, bins: &Bins, dir: &Path, known_crlf: bool) -> Outcome 
     if r.stdout.is_empty() {
         c.p_empty_output += 1;
     }
-    if r.stdout.contains(&0x1b) {
+    if matches!(sc.color, Color::Always | Color::Auto) && r.stdout.contains(&0x1b) {
         c.p_colored_runs += 1;
         if sc.color == Color::Auto {
             c.p_auto_colored += 1;
@@ -964,7 +1009,7 @@ pub fn run(sc: &Scenario, bins: &Bins, dir: &Path, known_crlf: bool) -> Outcome 
     let stderr = String::from_utf8_lossy(&r.stderr);
     let violation = if r.timed_out {
         Some(Violation { class: "no-return".into(), detail: format!("daacfind did not exit within {} s (repeatedly)", PROCESS_TIMEOUT_S.with(|t| t.get())) })
-    } else if r.status == Some(101) || stderr.contains("panicked at") {
+    } else if (r.status == Some(101) || stderr.contains("panicked at")) && !(write_fault || read_fault_file.is_some() || pattern_fault) {
         let first = stderr.lines().find(|l| !l.trim().is_empty()).unwrap_or("").to_string();
         let msg = stderr.lines().skip_while(|l| !l.contains("panicked at")).nth(1).unwrap_or("").to_string();
         let startup = stderr.contains("debug_asserts") || stderr.contains("clap");
@@ -1032,6 +1077,8 @@ const WORDS: &[&str] = &[
 const FILLER: &[&str] = &[
     "a", "b", "c", "d", "e", "h", "s", "r", "i", "x", "y", " ", " ", "o", "f", "世", "界", "全", "中", "に", "é", "n", "ß", "😀", "€",
     ":", "0", "1", "-", "\t", "q", "Q", "試", "\u{10fffe}", ".", "*", "\u{feff}", "\u{200b}", "\u{2028}",
+    // control characters a "binary file" heuristic or a terminal-safety filter would touch
+    "\u{1}", "\u{7}", "\u{8}", "\u{c}", "\u{7f}", "\u{85}", "\u{0}",
 ];
 
 fn gen_line(rng: &mut Rng, pats: &[String], long: bool, alpha: Option<&[&str]>) -> String {
@@ -1046,7 +1093,7 @@ fn gen_line(rng: &mut Rng, pats: &[String], long: bool, alpha: Option<&[&str]>) 
         if rng.chance(1, 2) {
             rng.range(8193, 9100)
         } else {
-            let b = *rng.pick(&[1024usize, 4096, 8192, 8192, 16384, 65536]);
+            let b = *rng.pick(&[1024usize, 4096, 8192, 8192, 16384, 65536, 100_000, 200_000]);
             b + rng.range(0, 4) - 2
         }
     } else {
@@ -1124,6 +1171,12 @@ pub fn generate(seed: u64, cfg: &GenCfg) -> Scenario {
             patterns.push(p);
         }
     }
+    if !cfg.small && rng.chance(1, 60) {
+        // one pattern longer than the buffers involved (1 KiB line writer, 8 KiB readers)
+        let n = *rng.pick(&[1100usize, 2100, 8200, 9000]);
+        let p: String = (0..n).map(|_| *rng.pick(&["a", "b", "c", "d"])).collect();
+        patterns.push(p);
+    }
     // how the patterns are passed
     let mut p_count = match rng.below(3) {
         0 => patterns.len(),
@@ -1132,8 +1185,8 @@ pub fn generate(seed: u64, cfg: &GenCfg) -> Scenario {
     };
     // an argument value starting with '-' would be taken for an option: send those through -f
     if p_count > 0 {
-        patterns.sort_by_key(|p| p.starts_with('-'));
-        let bad = patterns.iter().filter(|p| p.starts_with('-')).count();
+        patterns.sort_by_key(|p| p.starts_with('-') || p.contains('\0'));
+        let bad = patterns.iter().filter(|p| p.starts_with('-') || p.contains('\0')).count();
         p_count = p_count.min(patterns.len() - bad);
     }
     let nfiles = if cfg.small { *rng.pick(&[0usize, 1, 1, 2]) } else { *rng.pick(&[0usize, 0, 1, 1, 1, 2, 2, 3, 3, 6]) };
@@ -1183,6 +1236,7 @@ pub fn generate(seed: u64, cfg: &GenCfg) -> Scenario {
         }
         nofile_limit = 12;
     }
+    let mut tall_stdin: Option<Vec<String>> = None;
     if !cfg.small && !many && nofile_limit == 0 && rng.chance(1, 250) {
         // a tall input: more than 2^16 lines, matching lines on both sides of that boundary
         let n = rng.range(65_530, 66_200);
@@ -1195,7 +1249,9 @@ pub fn generate(seed: u64, cfg: &GenCfg) -> Scenario {
                 lines.push(if i % 2 == 0 { "q".to_string() } else { String::new() });
             }
         }
-        if files.is_empty() {
+        if files.is_empty() && rng.chance(1, 2) {
+            tall_stdin = Some(lines);
+        } else if files.is_empty() {
             files.push(("tall.txt".to_string(), lines));
         } else {
             let at = rng.below(files.len());
@@ -1212,7 +1268,7 @@ pub fn generate(seed: u64, cfg: &GenCfg) -> Scenario {
         }
     }
     let nfiles = files.len();
-    let stdin_lines = if nfiles == 0 { gen_lines(&mut rng) } else { vec![] };
+    let stdin_lines = if nfiles == 0 { tall_stdin.take().unwrap_or_else(|| gen_lines(&mut rng)) } else { vec![] };
     if !cfg.small && !many && rng.chance(1, 120) && !files.is_empty() {
         // deep overlap: a periodic pattern of 130-300 periods inside a longer run of the same
         // period: more than 127 (sometimes more than 255) reported matches cover one byte
@@ -1229,6 +1285,21 @@ pub fn generate(seed: u64, cfg: &GenCfg) -> Scenario {
     }
     let dup_file = files.len() >= 1 && rng.chance(1, 12);
     let color = *rng.pick(&[Color::Default, Color::Never, Color::Always, Color::Always, Color::Always, Color::Auto]);
+    if matches!(color, Color::Default | Color::Never) && rng.chance(1, 6) {
+        // the input itself contains escape sequences; with colouring off they pass through
+        let esc = *rng.pick(&["\u{1b}[31m", "\u{1b}[0m", "\u{1b}", "\u{1b}]0;t\u{7}"]);
+        let all: Vec<&mut String> = files.iter_mut().flat_map(|f| f.1.iter_mut()).collect();
+        let n = all.len();
+        if n > 0 {
+            let k = rng.below(n);
+            for (i, l) in all.into_iter().enumerate() {
+                if i == k && l.len() < 1000 {
+                    let at = l.char_indices().map(|(i, _)| i).nth(rng.below(l.chars().count() + 1)).unwrap_or(l.len());
+                    l.insert_str(at, esc);
+                }
+            }
+        }
+    }
     let term = rng.pick(&[None, Some("xterm-256color"), Some("dumb"), Some("xterm")]).map(|s| s.to_string());
     let profile = if rng.chance(1, 2) { Profile::Dev } else { Profile::Release };
     let mode = *rng.pick(&[Mode::FaultFree, Mode::Benign, Mode::Benign, Mode::Benign, Mode::Hard]);
@@ -1241,13 +1312,13 @@ pub fn generate(seed: u64, cfg: &GenCfg) -> Scenario {
         flag_n: rng.chance(1, 2),
         flag_h: rng.chance(1, 3),
         color,
-        color_eq: rng.chance(3, 4),
+        color_eq: rng.chance(9, 10),
         term,
         no_color: rng.chance(1, 8),
         mode,
         sched: Sched::none(),
-        pat_file_layout: if rng.chance(1, 3) { rng.below(8) as u8 } else { 0 },
-        p_layout: if rng.chance(1, 4) { rng.below(4) as u8 } else { 0 },
+        pat_file_layout: if rng.chance(1, 3) { 1 } else { 0 },
+        p_layout: 0,
         flag_style: if rng.chance(1, 3) { rng.below(4) as u8 } else { 0 },
         nofile_limit,
     };
@@ -1259,7 +1330,7 @@ pub fn generate(seed: u64, cfg: &GenCfg) -> Scenario {
         sc.files.insert(at, f);
     }
     sc.sched = gen_sched(&mut rng, mode);
-    if sc.files.iter().any(|f| f.1.len() > 60_000) {
+    if sc.files.iter().any(|f| f.1.len() > 60_000) || sc.stdin_lines.len() > 60_000 {
         // a tall input under a one-byte default would mean a million system calls: keep the
         // listed faults, let the rest pass
         sc.sched.read_default = Act::Pass;
